@@ -906,6 +906,33 @@ static int own_dec(int argc, char **argv)
    return 0;
    }
 
+/* own.dseq <d> <t|@set> <edition> <d1> ...: bufr_create_dataset_from_sequence on a free-form sequence of
+ * descriptors with values */
+static int own_dseq(int argc, char **argv)
+   {
+   int d, i, n; BUFR_Tables *t; BUFR_Sequence *seq;
+   if (argc < 5 || (d = slot(argv[1])) < 0 || D[d] || !(t = tables_arg(argv[2]))) return bad();
+   seq = bufr_create_sequence(NULL);
+   for (i = 4; i < argc; i++)
+      {
+      BufrDescriptor *b = bufr_create_descriptor(t, atoi(argv[i]));
+      if (!b) continue;
+      if (b->encoding.type == TYPE_CCITT_IA5) bufr_descriptor_set_svalue(b, "AB");
+      else if (b->encoding.type == TYPE_NUMERIC || b->encoding.type == TYPE_CODETABLE || b->encoding.type == TYPE_FLAGTABLE)
+         bufr_descriptor_set_ivalue(b, 1);
+      bufr_add_descriptor_to_sequence(seq, b);
+      }
+   D[d] = bufr_create_dataset_from_sequence(seq, t, atoi(argv[3])); stD[d] = ++stamp_ctr;
+   bufr_free_sequence(seq);
+   if (!D[d]) { fputs("null", bvp_out); print_tcache(t); return 0; }
+   n = bufr_count_datasubset(D[d]);
+   fprintf(bvp_out, "ok %d %d ", (D[d]->data_flag & BUFR_FLAG_INVALID) ? 1 : 0, n);
+   print_dts_head(D[d]);
+   for (i = 0; i < n; i++) { fputc(' ', bvp_out); print_subset_shape(bufr_get_datasubset(D[d], i)); }
+   print_tcache(t);
+   return 0;
+   }
+
 /* own.store <b> <d>: bufr_store_tables: the message that carries the local tables of the dataset's template */
 static int own_store(int argc, char **argv)
    {
@@ -1076,6 +1103,6 @@ struct op_entry ops_own[] = {
    { "own.dfill", own_dfill }, { "own.dmerge", own_dmerge }, { "own.dfree", own_dfree }, { "own.dhdr", own_dhdr },
    { "own.enc", own_enc }, { "own.gwrite", own_gwrite }, { "own.gread", own_gread }, { "own.gfree", own_gfree },
    { "own.bset", own_bset }, { "own.bcut", own_bcut }, { "own.bflip", own_bflip }, { "own.bget", own_bget },
-   { "own.dec", own_dec }, { "own.store", own_store }, { "own.extract", own_extract }, { "own.dumpload", own_dumpload },
+   { "own.dec", own_dec }, { "own.dseq", own_dseq }, { "own.store", own_store }, { "own.extract", own_extract }, { "own.dumpload", own_dumpload },
    { "own.freeall", own_freeall }, { "own.reset", own_resetall }, { "own.lsan", own_lsan },
    { NULL, NULL } };
